@@ -454,3 +454,67 @@ func vpH_C08_T_double_start() {
 	vpQuiesce()
 	s.audit("end")
 }
+
+// vpH_C08_T_slow_demote_log: the leader's record is deleted; its heartbeat notices and ends the term, but the
+// log sink takes up to 700 ms on the "leader_demoted" line that precedes the OnDemote call; meanwhile the
+// follower-side machinery finds the vacancy and the instance starts a new term. The first term's OnDemote is
+// still delivered: callbacks balance at quiescence, one demotion per lost term.
+func vpH_C08_T_slow_demote_log() {
+	H := time.Second
+	vpSetOpt("rand-fixed", 1)
+	s := vpTermInstance(H, true, false, func(cfg *ElectionConfig) {
+		cfg.Logger = &vpSlowLogger{at: map[string]bool{"leader_demoted": true}, max: 700 * time.Millisecond}
+	})
+	s.st.noEvents = true
+	s.st.write("env:other", "delete", nil, true, 0)
+	s.st.noEvents = false
+	time.Sleep(3 * H)
+	vpQuiesce()
+	vpCover("C08.slow-demote-log")
+	vpAssert("C08.term-ended", s.cb.demotes >= 1)
+	vpAssert("C08.demote-once-per-edge", s.cb.demotes == s.edges)
+	if s.e.IsLeader() {
+		vpAssert("C08.balance-at-quiescence", s.cb.promotes-s.cb.demotes == 1)
+	} else {
+		vpAssert("C08.balance-at-quiescence", s.cb.promotes-s.cb.demotes == 0)
+	}
+	_ = s.e.Stop()
+	vpQuiesce()
+	vpAssert("C08.balance-at-quiescence", s.cb.promotes == s.cb.demotes)
+}
+
+// vpH_C08_T_cancel_at_promotion: the caller cancels the context it passed to Start at the very moment the
+// instance is being promoted (the Logger's "leader_promoted" line, written inside becomeLeader, is a scheduling
+// point). Whatever the instance makes of that, a term that is announced by IsLeader / OnDemote was announced by
+// OnPromote first: callbacks alternate starting with a promotion and balance after the stop.
+func vpH_C08_T_cancel_at_promotion() {
+	H := time.Second
+	st := vpNewStore("g", 0)
+	kv := vpHandle(st, "a")
+	cfg := vpBaseConfig("a", H, 3*H)
+	cfg.ValidationInterval = time.Hour
+	cfg.Logger = &vpYieldLogger{at: map[string]bool{"leader_promoted": true}}
+	e := vpMustNew(&vpProvider{kv}, cfg)
+	cb := &vpCallbacks{}
+	cb.install(e)
+	ctx, cancel := context.WithCancel(vpRootCtx())
+	go func() {
+		vpYieldLazy("api.cancel", 500*time.Millisecond)
+		cancel()
+	}()
+	_ = e.Start(ctx)
+	time.Sleep(H + H/2)
+	vpQuiesce()
+	cancel()
+	vpCover("C08.cancel-at-promotion")
+	_ = e.Stop()
+	vpQuiesce()
+	for i, x := range cb.log {
+		if i%2 == 0 {
+			vpAssert("C08.alternate", x != "D")
+		} else {
+			vpAssert("C08.alternate", x == "D")
+		}
+	}
+	vpAssert("C08.balance-at-quiescence", cb.promotes == cb.demotes)
+}
